@@ -1,6 +1,8 @@
 import CpModel.Auth
 import CpModel.AuthPrims
 import CpProofs.C19Lemmas
+import CpProofs.C19B64
+import CpProofs.C19Parse
 /-!
   C19 — HTTP authentication admits exactly the right credentials.
 
@@ -153,6 +155,28 @@ theorem basic_empty_password_never (P : Prims) (cfg : BasicCfg) (hdr : Option St
     simp only [Bool.not_eq_false] at hq
     rw [if_pos hq] at h
     simp at h
+
+/-- **An RFC 7617 client against the concrete base64 decoder.**  For every user id without a colon, every password,
+    every hash, every codec pair with `decode (encode s) = s` on the credentials and every NFC function fixing them:
+    the header `Basic base64(encode(user:password))` is let through with `login = user` when the store maps the user to
+    exactly this non-empty password, and answered with the Basic challenge otherwise — nothing else can happen. -/
+theorem basic_rfc7617_client (H : Str → Str) (nfc : Str → Str) (decode : Bytes → Option Str) (encode : Str → Bytes)
+    (cfg : BasicCfg) (hq : cfg.realm.contains '"' = false) (u p : Str) (hu : ':' ∉ u)
+    (hcodec : decode (encode (u ++ ':' :: p)) = some (u ++ ':' :: p))
+    (hnfc : nfc (u ++ ':' :: p) = u ++ ':' :: p) :
+    basicAuth ⟨H, CpModel.AuthPrims.b64decode, decode, nfc⟩ cfg
+        (some (cs! "Basic " ++ CpModel.AuthPrims.b64encode (encode (u ++ ':' :: p)))) =
+      if dictGet u cfg.store = some p ∧ p ≠ [] then .grant u else .unauthorized (basicChallenge cfg) := by
+  have hsp : split1 ' ' (cs! "Basic " ++ CpModel.AuthPrims.b64encode (encode (u ++ ':' :: p))) =
+      some (cs! "Basic", CpModel.AuthPrims.b64encode (encode (u ++ ':' :: p))) :=
+    split1_of_append (cs! "Basic") _ (by decide)
+  have hl : pyLower (cs! "Basic") = cs! "basic" := by decide
+  unfold basicAuth
+  simp only [hq, Bool.false_eq_true, if_false, hsp, hl, if_true, b64decode_encode, tryDecode, hcodec, hnfc,
+    split1_of_append u p hu]
+  by_cases hc : dictGet u cfg.store = some p ∧ p ≠ []
+  · rw [if_pos hc, if_pos ((checkpasswordDict_iff _ _ _).mpr hc)]
+  · rw [if_neg hc, if_neg (fun h => hc ((checkpasswordDict_iff _ _ _).mp h))]
 
 /-! ## Digest -/
 
@@ -505,6 +529,55 @@ theorem digest_wrong_response_401 (P : Prims) (cfg : DigestCfg) (method : Str) (
       rw [requestDigest_eq_rfc P a (parseAuth_valid P h a hp) hq]
       simp only
       rw [if_pos (fun e => hw ha1 hget e.symm)]
+
+/-! ### an RFC 2617 client, from the header text -/
+
+/-- the constructor applied to a wire header that decodes to `Digest k₁="v₁", k₂="v₂", …` sees exactly those fields
+    (arbitrary values — quotes, backslashes, commas, any code point — in the standard quoted-string escaping) -/
+theorem parseAuth_serialised (P : Prims) (hw : Str) (kvs : List (Str × Str)) (hk : ∀ kv ∈ kvs, GoodKey kv.1)
+    (hm : digestMatches hw = true) (hd : tryDecodeHeader P hw = some (cs! "Digest " ++ serialise kvs)) :
+    parseAuth P hw = validateFields (fieldsOf kvs) := by
+  have hsp : split1 ' ' (cs! "Digest " ++ serialise kvs) = some (cs! "Digest", serialise kvs) :=
+    split1_of_append (cs! "Digest") _ (by decide)
+  unfold parseAuth
+  simp only [hm, not_true_eq_false, if_false, hd, hsp, parse_serialise kvs hk]
+
+/-- **An RFC 2617 client, end to end.**  The client writes its fields in any order as `name="escaped value"`; the
+    bytes reach the tool as `hw` and decode (accepted charset, else ISO-8859-1) to that text.  If the fields pass the
+    constructor's checks, name user `u`, use qop absent/`auth`, carry a nonce the server synthesises for its realm and
+    key with an unexpired timestamp, and the response is the RFC digest for the **stored** HA1 and the request's
+    method, the handler runs with `login = u`. -/
+theorem digest_rfc2617_client (P : Prims) (cfg : DigestCfg) (method : Str) (now : Int) (hw : Str)
+    (kvs : List (Str × Str)) (u ha1 ts : Str) (t : Int)
+    (hk : ∀ kv ∈ kvs, GoodKey kv.1) (hm : digestMatches hw = true)
+    (hd : tryDecodeHeader P hw = some (cs! "Digest " ++ serialise kvs))
+    (hv : Valid (fieldsOf kvs)) (hu : (fieldsOf kvs).username = some u)
+    (hq : (fieldsOf kvs).qop = none ∨ (fieldsOf kvs).qop = some (cs! "auth"))
+    (hget : getHa1 P cfg u = some ha1)
+    (hnonce : (fieldsOf kvs).nonce = some (synthesizeNonce P cfg.realm cfg.key ts)) (hts : ':' ∉ ts)
+    (hint : pyInt ts = some t) (hfresh : t + 600 > now)
+    (hresp : (fieldsOf kvs).response = some (rfcDigest P (fieldsOf kvs) method ha1)) :
+    digestAuth P cfg method now (some hw) = .grant u :=
+  digest_complete P cfg method now hw (fieldsOf kvs) u ha1 ts t
+    (by rw [parseAuth_serialised P hw kvs hk hm hd]; exact (validateFields_ok_iff _ _).mpr ⟨rfl, hv⟩)
+    hu hq hget hnonce hts hint hfresh hresp
+
+/-- … and with any other response (or an unknown user) the same client gets the plain 401 challenge -/
+theorem digest_rfc2617_client_wrong (P : Prims) (cfg : DigestCfg) (method : Str) (now : Int) (hw : Str)
+    (kvs : List (Str × Str)) (hk : ∀ kv ∈ kvs, GoodKey kv.1) (hm : digestMatches hw = true)
+    (hd : tryDecodeHeader P hw = some (cs! "Digest " ++ serialise kvs))
+    (hv : Valid (fieldsOf kvs)) (hq : (fieldsOf kvs).qop ≠ some (cs! "auth-int"))
+    (hw' : ∀ ha1, getHa1 P cfg (fmtOpt (fieldsOf kvs).username) = some ha1 →
+      fmtOpt (fieldsOf kvs).response ≠ rfcDigest P (fieldsOf kvs) method ha1) :
+    digestAuth P cfg method now (some hw) = respond401 P cfg now false :=
+  digest_wrong_response_401 P cfg method now hw (fieldsOf kvs)
+    (by rw [parseAuth_serialised P hw kvs hk hm hd]; exact (validateFields_ok_iff _ _).mpr ⟨rfl, hv⟩) hq hw'
+
+/-- non-vacuity: a field list with awkward values survives serialise → parse -/
+example : parseKeqvList (parseHttpList (serialise
+    [(cs! "username", cs! "bo\"b, \\x"), (cs! "realm", cs! "a,b=c"), (cs! "uri", []), (cs! "nc", cs! "1")])) =
+    .ok [(cs! "username", cs! "bo\"b, \\x"), (cs! "realm", cs! "a,b=c"), (cs! "uri", []), (cs! "nc", cs! "1")] := by
+  decide +kernel
 
 /-! ### 5xx -/
 
